@@ -187,12 +187,17 @@ def lint():
 
 def build():
     """full .vo build of the development (no-op when up to date)"""
-    if not os.path.exists(os.path.join(COQ, "Makefile")):
-        rc, out = sh("coq_makefile -f _CoqProject -o Makefile", cwd=COQ)
-        if rc != 0:
-            return False, out
-    rc, out = sh("timeout 3000 make -j%d 2>&1" % NCPU, timeout=3100, cwd=COQ)
-    return rc == 0, out[-4000:]
+    import fcntl
+    os.makedirs(WORK, exist_ok=True)
+    with open(os.path.join(WORK, ".build.lock"), "w") as lk:      # two checks started at the same time must not run make concurrently
+        fcntl.flock(lk, fcntl.LOCK_EX)
+        mk, cp = os.path.join(COQ, "Makefile"), os.path.join(COQ, "_CoqProject")
+        if not os.path.exists(mk) or os.path.getmtime(cp) > os.path.getmtime(mk):
+            rc, out = sh("coq_makefile -f _CoqProject -o Makefile", cwd=COQ)
+            if rc != 0:
+                return False, out
+        rc, out = sh("timeout 3000 make -j%d 2>&1" % NCPU, timeout=3100, cwd=COQ)
+        return rc == 0, out[-4000:]
 
 def _pair_assumptions(src, rc, out, res):
     """pair each theorem of a statements file with its Print Assumptions answer in coqc's output"""
